@@ -94,10 +94,16 @@ def obligations(tier, seed):
                         r2 = Update(P.chm(vals2, subset=idxs)).edit(key, tr, ad)
                         r3 = StaticRequest({addr: Update(Q.chm([vals2[j] for j in idxs]))}).edit(key, tr, Diff.no_change(args))
                         r4 = Update(P.chm(vals2, subset=idxs)).edit(key, tr, Diff.no_change(args))
-                        return [tv(P, r1[0]), r1[1], tv(P, r3[0]), r3[1]], [tv(P, r2[0]), r2[1], tv(P, r4[0]), r4[1]]
+                        # the returned backward request is the StaticRequest of the sub-requests' backward requests: applying it == applying Update's own
+                        b1 = r1[3].edit(key, r1[0], Diff.unknown_change(args))
+                        b2 = r2[3].edit(key, r2[0], Diff.unknown_change(args))
+                        b3 = r3[3].edit(key, r3[0], Diff.no_change(args))
+                        b4 = r4[3].edit(key, r4[0], Diff.no_change(args))
+                        return ([tv(P, r1[0]), r1[1], tv(P, r3[0]), r3[1], tv(P, b1[0]), b1[1], tv(P, b3[0]), b3[1]],
+                                [tv(P, r2[0]), r2[1], tv(P, r4[0]), r4[1], tv(P, b2[0]), b2[1], tv(P, b4[0]), b4[1]])
 
                     obs.append(Ob(f"C38/StaticRequest[{addr}:Update]=Update/{nm}", sreq, (gfi.KEY, P.args, ex, ex2, args2), assume=lambda k, a, v, v2, a2, A=A: A(a, v) + A(a2, v2),
-                                  note="StaticRequest applying Update at one address (EmptyRequest elsewhere) == Update of the same sites, with and without argument changes"))
+                                  note="StaticRequest applying Update at one address (EmptyRequest elsewhere) == Update of the same sites, with and without argument changes; applying the returned backward request == applying Update's backward request"))
                 if "regenerate" in Q.supports:
                     def sreg(key, args, vals, P=P, addr=addr, idxs=idxs):
                         tr, _ = P.gf.importance(key, P.chm(vals), args)
